@@ -52,7 +52,9 @@ def tcp_histories(ctx, cfg, cid, payloads, nsess):
             segs = cut(pl, cuts)
             # follow-up traffic on a flow that already failed/completed
             for _x in range(rng.choice([0, 0, 1, 3])):
-                segs.append(rng.choice([b"", b"\r\n\r\n", b"GET / HTTP/1.1\r\n\r\n", bytes(rng.getrandbits(8) for _y in range(rng.randrange(1, 60))), pl]))
+                # ... including complete requests of *other* protocols on the same flow
+                segs.append(rng.choice([b"", b"\r\n\r\n", b"GET / HTTP/1.1\r\n\r\n", bytes(rng.getrandbits(8) for _y in range(rng.randrange(1, 60))), pl,
+                                        rng.choice(payloads)[1], rng.choice(payloads)[1]]))
             flows.append([fl, segs, name])
         for fl, _s, _n in flows:
             if rng.random() < 0.9:
@@ -68,7 +70,7 @@ def tcp_histories(ctx, cfg, cid, payloads, nsess):
             elif k < 0.9:
                 r = fl.data(s, ack=rng.getrandbits(32))
             elif k < 0.95:
-                r = ctx.send(fl.data_frame(b"", flags=rng.choice([FIN | ACK, RST, ACK, SYN, FIN | PSH | ACK])))
+                r = ctx.send(fl.data_frame(b"", flags=rng.choice([FIN | ACK, RST, ACK, SYN, SYN, SYN, FIN | PSH | ACK])))
                 segs.insert(0, s)
             else:
                 r = fl.data(s, flags=PSH | ACK | rng.choice([SYN, FIN, RST, 0x20, 0x40, 0x80, 0x100]))
